@@ -211,6 +211,14 @@ func (e *Engine) finishPath(st *State) {
 			e.recordViolation(st, "no-unbounded-recursion", st.model, st.outcome)
 			return
 		}
+		if cls == "budget" && e.noHang {
+			// C14 / C19: the build (or entry point) did not finish within the step / depth budget
+			r.Paths++
+			r.Obligations++
+			r.Outcomes["did-not-terminate"]++
+			e.recordViolation(st, "terminates", st.model, st.outcome)
+			return
+		}
 		r.Inconclusive[st.outcome]++
 		return
 	case "assert":
